@@ -101,6 +101,27 @@ func (r *refFS) create(name string, excl bool, trunc bool) bool {
 	return true
 }
 
+// open: OpenFile with an access mode and any combination of O_CREATE, O_EXCL (with O_CREATE), O_TRUNC, O_APPEND
+func (r *refFS) open(name string, write, create, excl, trunc bool) bool {
+	if x := r.find(name); x != nil {
+		if create && excl {
+			return false
+		}
+		if x.dir {
+			return !write // a directory can only be opened for reading
+		}
+		if trunc && write {
+			x.size = 0
+		}
+		return true
+	}
+	if !create || !r.parentOK(name) {
+		return false
+	}
+	r.add(name, false, 0o644)
+	return true
+}
+
 func (r *refFS) remove(name string) bool {
 	x := r.find(name)
 	if x == nil || name == "/" {
@@ -229,7 +250,7 @@ func c02Agree(v *verifFS, ref *refFS, checkMode bool) bool {
 	return ok && nLive == nRef
 }
 
-const c02Ops = 10
+const c02Ops = 11
 
 // c02Step performs one call on both the filesystem and the reference and compares them. light restricts the
 // call to a small concrete vocabulary (used for the first call of a two-call history). It returns false when
@@ -326,6 +347,35 @@ func c02Step(v *verifFS, ref *refFS, tag string, light bool) bool {
 			h.Close()
 		}
 		want = ref.find(canon) != nil
+	case 10:
+		// any flag combination
+		acc := []int{os.O_RDONLY, os.O_WRONLY, os.O_RDWR}[vm.Choice(tag+"acc", 3)]
+		create, trunc, app := vm.Bool(tag+"oCreate"), vm.Bool(tag+"oTrunc"), vm.Bool(tag+"oAppend")
+		excl := create && vm.Bool(tag+"oExcl")
+		flag := acc
+		if create {
+			flag |= os.O_CREATE
+		}
+		if excl {
+			flag |= os.O_EXCL
+		}
+		if trunc {
+			flag |= os.O_TRUNC
+		}
+		if app {
+			flag |= os.O_APPEND
+		}
+		// (O_TRUNC or O_APPEND without write access on a directory: POSIX and the in-memory reference filesystems
+		// disagree with each other there, so nothing is demanded)
+		if x := ref.find(canon); x != nil && x.dir && acc == os.O_RDONLY && (trunc || app) {
+			vm.Assume(false)
+		}
+		h, e := v.FS.OpenFile(name, flag, 0o644)
+		err = e
+		if e == nil {
+			err = h.Close()
+		}
+		want = ref.open(canon, acc != os.O_RDONLY, create, excl, trunc)
 	}
 	vm.Assert("C02.success_iff_reference_succeeds", (err == nil) == want)
 	agree := true
